@@ -169,7 +169,7 @@ PROPS = {
         rule='every accepted v2 header in the stream traces, borrowed and owned views; distinct = distinct inputs',
     ),
     'C15': dict(
-        gens=dict(quick=g('stream', v1good=300, v1struct=60), thorough=g('stream', v1good=8000, v1struct=2000)),
+        gens=dict(quick=g('stream', v1good=300, v1struct=60, v1adj=96, v1max=20), thorough=g('stream', v1good=8000, v1struct=2000, v1adj=6144, v1max=400)),
         models=[MC_V1],
         rule='every accepted v1 header (bytes and text entry points); distinct = distinct inputs',
     ),
